@@ -68,28 +68,29 @@ def mapSorted (ordering : Array Nat) (s : VSet) : MErr (Array Nat) := do
   let l ← s.toList.mapM (fun v => getE ordering v "ordering")
   pure (VSet.sort l.toArray)
 
+/-- the row-shifting loop of `add_entries_with_cone` over the index range `[s, s + len)` of
+`xs`: `v[k] = xs[k].checked_add_signed(row_ptr - row_range.start).unwrap()` -/
+def shiftRows (v xs : Array Nat) (s len rowPtr rs : Nat) : MErr (Array Nat) :=
+  (List.range' s len).foldlM (fun (v : Array Nat) k => do
+    let x := xs.getD k 0
+    if x + rowPtr < rs then throw (.panic "checked_add_signed") else
+    setE v k (x + rowPtr - rs) "add_entries_with_cone") v
+
+/-- the body shared by the `b` part and the per-column `A` part of `add_entries_with_cone`:
+`get_rows_subset` on the segment `xs[lo..hi)` and, on `Some(s..e)`, the shift of those rows -/
+def shiftSeg (v xs : Array Nat) (lo hi rs re rowPtr : Nat) : MErr (Array Nat) :=
+  match getRowsSubset xs lo hi rs re with
+  | some (s, e) => shiftRows v xs s (e - s) rowPtr rs
+  | none => pure v
+
 /-- `add_entries_with_cone` -/
 def addEntriesWithCone (st : CompactState) (A : Csc α) (bInd : Array Nat) (rs re : Nat) (cone : Cone) :
     MErr CompactState := do
-  let shift (x : Nat) : MErr Nat :=
-    if x + st.rowPtr < rs then throw (.panic "checked_add_signed") else pure (x + st.rowPtr - rs)
-  let mut baI := st.baI
-  match getRowsSubset bInd 0 bInd.size rs re with
-  | some (s, e) =>
-    for k in List.range' s (e - s) do
-      let v ← shift (bInd.getD k 0)
-      baI ← setE baI k v "add_entries_with_cone"
-  | none => pure ()
-  let mut AaI := st.AaI
-  for col in List.range A.n do
+  let baI ← shiftSeg st.baI bInd 0 bInd.size rs re st.rowPtr
+  let AaI ← (List.range A.n).foldlM (fun (AaI : Array Nat) col => do
     let lo ← getE A.colptr col "get_rows_mat"
     let hi ← getE A.colptr (col + 1) "get_rows_mat"
-    match getRowsSubset A.rowval lo hi rs re with
-    | some (s, e) =>
-      for k in List.range' s (e - s) do
-        let v ← shift (A.rowval.getD k 0)
-        AaI ← setE AaI k v "add_entries_with_cone"
-    | none => pure ()
+    shiftSeg AaI A.rowval lo hi rs re st.rowPtr) st.AaI
   let origIndex := match st.coneMaps.back? with
     | none => 0
     | some l => l.origIndex + 1
@@ -97,63 +98,93 @@ def addEntriesWithCone (st : CompactState) (A : Csc α) (bInd : Array Nat) (rs r
                  coneMaps := st.coneMaps.push { origIndex := origIndex, treeAndClique := none },
                  rowPtr := st.rowPtr + cone.nvars }
 
+/-- `clique_rows_map` : tree index of a clique ↦ first row of its block (a `HashMap`:
+a later insertion with the same key replaces the earlier one) -/
+def cliqueRowsMap (rowStart : Nat) (t : SuperNodeTree) : MErr (List (Nat × Nat)) := do
+  let (m, _) ← (List.range t.nCliques).reverse.foldlM (fun (acc : List (Nat × Nat) × Nat) i => do
+    let nb ← t.getNblk i
+    let c ← getE t.snodePost i "clique_rows_map"
+    pure ((c, acc.2) :: acc.1.filter (fun e => e.1 != c), acc.2 + triangularNumber nb)) ([], rowStart)
+  pure m
+
+/-- one pass of the loop of `add_clique_entries`; state `(A_I, b_I, overlap_ptr, counter)` -/
+def addCliqueEntry (rowval bInd parentClique : Array Nat) (parentStart col rowPtr rs : Nat)
+    (rangeCol rangeB : Nat × Nat) (st : Array Nat × Array Nat × Nat × Nat) (e : Nat × Nat × Bool) :
+    MErr (Array Nat × Array Nat × Nat × Nat) := do
+  let (AaI, baI, overlapPtr, counter) := st
+  let newRowVal := rowPtr + counter
+  if e.2.2 then
+    if col == 0 then
+      let AaI ← setE AaI overlapPtr newRowVal "add_clique_entries"
+      let AaI ← setE AaI (overlapPtr + 1) (parentStart + parentBlockIndices parentClique e.1 e.2.1)
+        "add_clique_entries"
+      pure (AaI, baI, overlapPtr + 2, counter + 1)
+    else pure (AaI, baI, overlapPtr, counter + 1)
+  else
+    let k := coordToUpperTriangularIndex (e.1, e.2.1)
+    let AaI ← modifyCliqueRows AaI k rowval newRowVal rs rangeCol
+    let baI ← if col == 0 then modifyCliqueRows baI k bInd newRowVal rs rangeB else pure baI
+    pure (AaI, baI, overlapPtr, counter + 1)
+
+/-- `add_clique_entries` : the modified `(A_I, b_I)` and the new `overlap_ptr` -/
+def addCliqueEntries (rowval bInd parentClique : Array Nat) (parentStart col rowPtr rs : Nat)
+    (rangeCol rangeB : Nat × Nat) (blockIndices : List (Nat × Nat × Bool))
+    (AaI baI : Array Nat) (overlapPtr : Nat) : MErr (Array Nat × Array Nat × Nat) := do
+  let (a, b, op, _) ← blockIndices.foldlM
+    (addCliqueEntry rowval bInd parentClique parentStart col rowPtr rs rangeCol rangeB)
+    (AaI, baI, overlapPtr, 0)
+  pure (a, b, op)
+
+/-- the loop `for col in 0..n` of `add_entries_with_sparsity_pattern` for one clique -/
+def addCliqueCols (A : Csc α) (bInd : Array Nat) (rs re : Nat) (blockIndices : List (Nat × Nat × Bool))
+    (parentClique : Array Nat) (parentStart rowPtr : Nat) (AaI baI : Array Nat) (overlapPtr : Nat) :
+    MErr (Array Nat × Array Nat × Nat) :=
+  (List.range A.n).foldlM (fun (acc : Array Nat × Array Nat × Nat) col => do
+    let lo ← getE A.colptr col "get_rows_mat"
+    let hi ← getE A.colptr (col + 1) "get_rows_mat"
+    let rangeCol := (getRowsSubset A.rowval lo hi rs re).getD (0, 0)
+    let rangeB := if col == 0 then (getRowsSubset bInd 0 bInd.size rs re).getD (0, 0) else (0, 0)
+    addCliqueEntries A.rowval bInd parentClique parentStart col rowPtr rs rangeCol rangeB blockIndices
+      acc.1 acc.2.1 acc.2.2) (AaI, baI, overlapPtr)
+
+/-- the `parent_rows.start` and the sorted `parent_clique` (original coordinates) that
+`add_entries_with_sparsity_pattern` loads for the clique with post-order index `i`
+(`0..0` and the empty clique for the root) -/
+def parentInfo (p : SPattern) (cliqueToRows : List (Nat × Nat)) (i : Nat) : MErr (Nat × Array Nat) :=
+  let t := p.sntree
+  if i + 1 != t.nCliques then do
+    let pi ← t.getCliqueParent i
+    let parentStart ← (match cliqueToRows.find? (fun e => e.1 == pi) with
+      | some e => pure e.2
+      | none => throw (.panic "clique_to_rows: unwrap") : MErr Nat)
+    let psn ← getE t.snode pi "get_clique_by_index"
+    let psp ← getE t.separators pi "get_clique_by_index"
+    let parentClique ← mapSorted p.ordering (psn.extend psp.toList)
+    pure (parentStart, parentClique)
+  else pure (0, #[])
+
+/-- the body of the loop over the cliques (post-order index `i`, descending) of
+`add_entries_with_sparsity_pattern` -/
+def addCliqueStep (A : Csc α) (bInd : Array Nat) (rs re : Nat) (p : SPattern) (pIndex : Nat)
+    (cliqueToRows : List (Nat × Nat)) (st : CompactState) (i : Nat) : MErr CompactState := do
+  let t := p.sntree
+  let sep ← t.getSeparators i
+  let separator ← mapSorted p.ordering sep
+  let sn ← t.getSnode i
+  let snode ← mapSorted p.ordering sn
+  let blockIndices := getBlockIndices snode separator p.ordering.size
+  let pinfo ← parentInfo p cliqueToRows i
+  let r ← addCliqueCols A bInd rs re blockIndices pinfo.2 pinfo.1 st.rowPtr st.AaI st.baI st.overlapPtr
+  let coneDim ← t.getNblk i
+  pure { AaI := r.1, baI := r.2.1, conesNew := st.conesNew.push (.psd coneDim),
+         coneMaps := st.coneMaps.push { origIndex := p.origIndex, treeAndClique := some (pIndex, i) },
+         rowPtr := st.rowPtr + triangularNumber coneDim, overlapPtr := r.2.2 }
+
 /-- `add_entries_with_sparsity_pattern` -/
 def addEntriesWithSparsityPattern (st : CompactState) (A : Csc α) (bInd : Array Nat) (rs re : Nat)
     (p : SPattern) (pIndex : Nat) : MErr CompactState := do
-  let t := p.sntree
-  -- clique_rows_map
-  let mut cliqueToRows : List (Nat × Nat) := []   -- clique index ↦ first row
-  let mut rowStart := st.rowPtr
-  for i in (List.range t.nCliques).reverse do
-    let nb ← t.getNblk i
-    let c ← getE t.snodePost i "clique_rows_map"
-    cliqueToRows := (c, rowStart) :: cliqueToRows.filter (fun e => e.1 != c)
-    rowStart := rowStart + triangularNumber nb
-  let mut AaI := st.AaI
-  let mut baI := st.baI
-  let mut conesNew := st.conesNew
-  let mut coneMaps := st.coneMaps
-  let mut rowPtr := st.rowPtr
-  let mut overlapPtr := st.overlapPtr
-  for i in (List.range t.nCliques).reverse do
-    let separator ← mapSorted p.ordering (← t.getSeparators i)
-    let snode ← mapSorted p.ordering (← t.getSnode i)
-    let blockIndices := getBlockIndices snode separator p.ordering.size
-    let mut parentStart := 0
-    let mut parentClique : Array Nat := #[]
-    if i + 1 != t.nCliques then
-      let pi ← t.getCliqueParent i
-      match cliqueToRows.find? (fun e => e.1 == pi) with
-      | some e => parentStart := e.2
-      | none => throw (.panic "clique_to_rows: unwrap")
-      let psn ← getE t.snode pi "get_clique_by_index"
-      let psp ← getE t.separators pi "get_clique_by_index"
-      parentClique ← mapSorted p.ordering (psn.extend psp.toList)
-    for col in List.range A.n do
-      let lo ← getE A.colptr col "get_rows_mat"
-      let hi ← getE A.colptr (col + 1) "get_rows_mat"
-      let rangeCol := (getRowsSubset A.rowval lo hi rs re).getD (0, 0)
-      let rangeB := if col == 0 then (getRowsSubset bInd 0 bInd.size rs re).getD (0, 0) else (0, 0)
-      -- add_clique_entries
-      let mut counter := 0
-      for (bi, bj, isOverlap) in blockIndices do
-        let newRowVal := rowPtr + counter
-        if isOverlap then
-          if col == 0 then
-            AaI ← setE AaI overlapPtr newRowVal "add_clique_entries"
-            AaI ← setE AaI (overlapPtr + 1) (parentStart + parentBlockIndices parentClique bi bj) "add_clique_entries"
-            overlapPtr := overlapPtr + 2
-        else
-          let k := coordToUpperTriangularIndex (bi, bj)
-          AaI ← modifyCliqueRows AaI k A.rowval newRowVal rs rangeCol
-          if col == 0 then
-            baI ← modifyCliqueRows baI k bInd newRowVal rs rangeB
-        counter := counter + 1
-    let coneDim ← t.getNblk i
-    conesNew := conesNew.push (.psd coneDim)
-    coneMaps := coneMaps.push { origIndex := p.origIndex, treeAndClique := some (pIndex, i) }
-    rowPtr := rowPtr + triangularNumber coneDim
-  pure { AaI, baI, conesNew, coneMaps, rowPtr, overlapPtr }
+  let cliqueToRows ← cliqueRowsMap st.rowPtr p.sntree
+  (List.range p.sntree.nCliques).reverse.foldlM (addCliqueStep A bInd rs re p pIndex cliqueToRows) st
 
 /-- `CscMatrix::new_from_triplets` : stable sort by (column, row), repeated entries added -/
 def cscFromTriplets [Add α] (m n : Nat) (I J : Array Nat) (V : Array α) : MErr (Csc α) := do
@@ -177,9 +208,39 @@ def cscFromTriplets [Add α] (m n : Nat) (I J : Array Nat) (V : Array α) : MErr
   pure { m := m, n := n, colptr := colptr, rowval := (merged.map (·.2.1)).toArray,
          nzval := (merged.map (·.2.2)).toArray }
 
-/-- `find_compact_A_b_and_cones` : `(A_new, b_new, cones_new, cone_maps)` -/
-def findCompactAbAndCones [Add α] [Neg α] [OfNat α 0] [OfNat α 1] [BEq α] (ci : ChordalInfo) (A : Csc α) (b : Array α) :
-    MErr (Csc α × Array α × Array Cone × Array ConeMapEntry) := do
+/-- the triplet form of the result of the main loop of `find_compact_A_b_and_cones` -/
+structure CompactTriplets (α : Type) where
+  dim : Nat
+  nOverlaps : Nat
+  AaI : Array Nat
+  AaJ : Array Nat
+  AaV : Array α
+  bInd : Array Nat
+  bVal : List α
+  baI : Array Nat
+  conesNew : Array Cone
+  coneMaps : Array ConeMapEntry
+
+/-- the body of the loop over the cones of `find_compact_A_b_and_cones`; state = the mutable
+arrays and the number of patterns consumed -/
+def compactConeStep (ci : ChordalInfo) (A : Csc α) (bInd : Array Nat) (starts : Array Nat)
+    (acc : CompactState × Nat) (coneidx : Nat) : MErr (CompactState × Nat) := do
+  let (st, k) := acc
+  let cone ← getE ci.initCones coneidx "find_compact"
+  let rs := starts.getD coneidx 0
+  let re := rs + cone.nvars
+  match ci.nextPattern? k coneidx with
+  | some p =>
+    if !cone.isPsd then throw (.panic "find_compact: assert PSD") else
+    let st ← addEntriesWithSparsityPattern st A bInd rs re p k
+    pure (st, k + 1)
+  | none =>
+    let st ← addEntriesWithCone st A bInd rs re cone
+    pure (st, k)
+
+/-- `find_compact_A_b_and_cones` up to (not including) the assembly of `A_new`, `b_new` -/
+def findCompactTriplets [Neg α] [OfNat α 0] [OfNat α 1] [BEq α] (ci : ChordalInfo) (A : Csc α) (b : Array α) :
+    MErr (CompactTriplets α) := do
   let (dim, nOverlaps) ← ci.getDecomposedDimAndOverlaps
   let nnzA := A.colptr.getD A.n 0
   let AaNnz := nnzA + 2 * nOverlaps
@@ -198,24 +259,19 @@ def findCompactAbAndCones [Add α] [Neg α] [OfNat α 0] [OfNat α 1] [BEq α] (
   let starts := coneStarts ci.initCones
   let st0 : CompactState := { AaI := Array.replicate AaNnz usizeMax, baI := Array.replicate bInd.size usizeMax,
                               conesNew := #[], coneMaps := #[], rowPtr := 0, overlapPtr := nnzA }
-  let (st, _) ← (List.range ci.initCones.size).foldlM (fun (acc : CompactState × Nat) coneidx => do
-    let (st, k) := acc
-    let cone ← getE ci.initCones coneidx "find_compact"
-    let rs := starts.getD coneidx 0
-    let re := rs + cone.nvars
-    match ci.nextPattern? k coneidx with
-    | some p =>
-      if !cone.isPsd then throw (.panic "find_compact: assert PSD") else
-      let st ← addEntriesWithSparsityPattern st A bInd rs re p k
-      pure (st, k + 1)
-    | none =>
-      let st ← addEntriesWithCone st A bInd rs re cone
-      pure (st, k)) (st0, 0)
-  let Anew ← cscFromTriplets dim (A.n + nOverlaps) st.AaI AaJ AaV
+  let (st, _) ← (List.range ci.initCones.size).foldlM (compactConeStep ci A bInd starts) (st0, 0)
+  pure { dim, nOverlaps, AaI := st.AaI, AaJ, AaV, bInd, bVal, baI := st.baI,
+         conesNew := st.conesNew, coneMaps := st.coneMaps }
+
+/-- `find_compact_A_b_and_cones` : `(A_new, b_new, cones_new, cone_maps)` -/
+def findCompactAbAndCones [Add α] [Neg α] [OfNat α 0] [OfNat α 1] [BEq α] (ci : ChordalInfo) (A : Csc α) (b : Array α) :
+    MErr (Csc α × Array α × Array Cone × Array ConeMapEntry) := do
+  let tr ← findCompactTriplets ci A b
+  let Anew ← Csc.newFromTriplets tr.dim (A.n + tr.nOverlaps) tr.AaI tr.AaJ tr.AaV
   -- SparseVector -> Vec
-  let bnew ← (List.range bInd.size).foldlM (fun (v : Array α) k =>
-    setE v (st.baI.getD k 0) (bVal.getD k 0) "sparsevector.into") (Array.replicate dim 0)
-  pure (Anew, bnew, st.conesNew, st.coneMaps)
+  let bnew ← (List.range tr.bInd.size).foldlM (fun (v : Array α) k =>
+    setE v (tr.baI.getD k 0) (tr.bVal.getD k 0) "sparsevector.into") (Array.replicate tr.dim 0)
+  pure (Anew, bnew, tr.conesNew, tr.coneMaps)
 
 end Clarabel.Chordal
 
